@@ -464,8 +464,12 @@ pub fn make_replay(seed: u64, profile: &str, probe: bool, v: &Violation) -> Resu
         original_ops: ops.len(),
         note: format!("profile {} probe {}", profile, probe),
     };
-    let path = replay::write_replay("/verif/replays", &rf).map_err(|e| e.to_string())?;
+    let path = replay::write_replay(&replay_dir(), &rf).map_err(|e| e.to_string())?;
     Ok((rf, path))
+}
+
+pub fn replay_dir() -> String {
+    std::env::var("VERIF_REPLAY_DIR").unwrap_or_else(|_| "/verif/replays".into())
 }
 
 pub fn components() -> Value {
@@ -536,9 +540,10 @@ pub fn write_evidence(plan: &Plan, tier: &str, seed: u64, out: &CheckOutcome, vi
         "wall_s": out.wall_s,
         "violations": violations,
     });
-    let _ = std::fs::create_dir_all("/verif/evidence");
+    let dir = std::env::var("VERIF_EVIDENCE_DIR").unwrap_or_else(|_| "/verif/evidence".into());
+    let _ = std::fs::create_dir_all(&dir);
     let _ = std::fs::write(
-        format!("/verif/evidence/{}.json", plan.prop),
+        format!("{}/{}.json", dir, plan.prop),
         serde_json::to_string_pretty(&ev).unwrap(),
     );
 }
@@ -709,6 +714,6 @@ pub fn make_replay_from_ops(seed: u64, cfg: &RunCfg, ops: &[Op], v: &Violation, 
         original_ops: ops.len(),
         note: note.to_string(),
     };
-    let path = replay::write_replay("/verif/replays", &rf).map_err(|e| e.to_string())?;
+    let path = replay::write_replay(&replay_dir(), &rf).map_err(|e| e.to_string())?;
     Ok((rf, path))
 }
